@@ -163,7 +163,11 @@ func (e *env) execPhased(parked, live []int, party bool) result {
 
 	// ---- transition
 	step := len(parked)
-	startSym := sym{Name: fmt.Sprintf("the transition round0->round1 replaying the parked messages %v", e.names(parked)), Class: "start", Sender: -1}
+	pn := fmt.Sprint(e.names(parked))
+	if len(parked) > 8 {
+		pn = fmt.Sprintf("[%s … %s] (%d messages)", strings.Join(e.names(parked[:3]), " "), strings.Join(e.names(parked[len(parked)-3:]), " "), len(parked))
+	}
+	startSym := sym{Name: "the transition round0->round1 replaying the parked messages " + pn, Class: "start", Sender: -1}
 	var serr error
 	if p, val, site := fw.Try(func() { serr = ra.v.VerifRoundEnterRound1() }); p {
 		return fail(&finding{Sig: "C15:panic:" + site + ":parked", Part: "round", Step: step,
@@ -381,7 +385,7 @@ func (e *env) phased(c *fw.Ctx, idx *int64, byz []int, liveDepth int, party, cor
 	}
 	var hon, extra, liveAlpha []int
 	for i, s := range e.syms {
-		if s.Byz >= 0 && !isB[s.Byz] {
+		if (s.Byz >= 0 && !isB[s.Byz]) || s.Class == clsFlood {
 			continue
 		}
 		if s.Class == clsHon {
